@@ -151,6 +151,12 @@ def zero_rows(N, s):
     return slice(0, 0)
 
 
+def _readonly(a):
+    a = np.array(a)
+    a.setflags(write=False)
+    return a
+
+
 def exact_elementwise(arr_or_scalar, ss):
     """Exact shift per element of the sample shape (broadcast by the documented rule: leading axes aligned)."""
     a = np.asarray(arr_or_scalar, dtype=float)
@@ -236,6 +242,52 @@ def check_case(case):
                     res.hits["time Quantity shift"] += 1
                     if str(unit) != {8.0: "s", 1e3: "ms", 1e6: "us"}[rate_hz]:
                         res.hits["Quantity unit not reciprocal to the rate unit"] += 1
+    # the same shift in unusual but valid argument forms must give the same result as the plain float / ndarray form
+    if N >= 2:
+        base_scalar = np.asarray(pb.time_shift(zg, 1.5).data)
+        for form, arg in (("np.float32", np.float32(1.5)), ("np.float64", np.float64(1.5)), ("0-d array", np.array(1.5)),
+                          ("python float expression", 3 / 2)):
+            try:
+                got = np.asarray(pb.time_shift(zg, arg).data)
+            except Exception as e:
+                res.violation(f"time_shift|argument form {form} raised", f"{type(e).__name__}: {e}", case, {"form": form})
+                continue
+            res.transitions += 1
+            if got.shape != base_scalar.shape or float(np.max(np.abs(got - base_scalar))) > 16 * EPS32:
+                res.violation(f"time_shift|argument form {form}", f"shift given as {form} differs from the plain float result", case,
+                              {"form": form})
+        base_int = np.asarray(pb.time_shift(zg, 2.0, crop=True).data)
+        for form, arg in (("python int", 2), ("np.int64", np.int64(2)), ("np.int8", np.int8(2)), ("bool-free int array 0-d", np.array(2))):
+            got = pb.time_shift(zg, arg, crop=True)
+            res.transitions += 1
+            if got.shape != base_int.shape or not np.array_equal(np.asarray(got.data), base_int):
+                res.violation(f"time_shift|argument form {form}", f"integer shift given as {form} differs from 2.0", case, {"form": form})
+        if ss:
+            arr = np.array([1.5, -0.75, 2.0, 0.25][:ss[0]] if ss[0] <= 4 else [1.5] * ss[0])
+            if len(arr) == ss[0]:
+                ref_arr = np.asarray(pb.time_shift(zg, arr).data)
+                forms = [("list", list(arr)), ("tuple", tuple(arr)), ("float32 array", arr.astype(np.float32)),
+                         ("read-only array", _readonly(arr)), ("non-contiguous array", np.repeat(arr, 2)[::2])]
+                if float(np.max(np.abs(arr * 4 - np.round(arr * 4)))) == 0:
+                    for form, arg in forms:
+                        try:
+                            got = np.asarray(pb.time_shift(zg, arg).data)
+                        except Exception as e:
+                            res.violation(f"time_shift|argument form {form} raised", f"{type(e).__name__}: {e}", case, {"form": form})
+                            continue
+                        res.transitions += 1
+                        if got.shape != ref_arr.shape or float(np.max(np.abs(got - ref_arr))) > 16 * EPS32:
+                            res.violation(f"time_shift|argument form {form}", f"per-channel shift given as {form} differs from the "
+                                          f"float64 ndarray result", case, {"form": form})
+        # read-only signal data
+        zro = make_signal(N, dtype, ss, _readonly(np.asarray(zg.data).copy()))
+        try:
+            got = np.asarray(pb.time_shift(zro, 1.5).data)
+            if not np.array_equal(got, base_scalar):
+                res.violation("time_shift|read-only input", "result differs for a read-only input buffer", case, None)
+        except Exception as e:
+            res.violation("time_shift|read-only input raised", f"{type(e).__name__}: {e}", case, None)
+        res.hits["argument forms"] += 1
     # too many dimensions -> ValueError
     for bad in (np.zeros((1,) * (zg.ndim)), np.ones(zg.shape)):
         try:
@@ -380,7 +432,7 @@ def main(argv=None):
         PID, gen_cases=gen_cases, check_case=check_case, describe=describe,
         required_hits=["zero-fill rows checked", "length-1 shift axis broadcast over a longer sample axis",
                        "shift array with fewer axes than the sample shape", "|s| >= N (all zero)", "crop to empty",
-                       "mixed-sign crop", "time Quantity shift", "Quantity unit not reciprocal to the rate unit", "negative zero in a shift array", "too many dims rejected",
+                       "mixed-sign crop", "time Quantity shift", "Quantity unit not reciprocal to the rate unit", "negative zero in a shift array", "argument forms", "too many dims rejected",
                        "complex even-N fractional (two Nyquist conventions accepted)",
                        "all-zero shift (identity fast path)"],
         assumptions=["phase ramp is single precision by design: value budget 16*eps32*max|x| (a more accurate implementation passes)",
